@@ -3,7 +3,9 @@
 
 reads   <vcheck.REPO>/duke/src/simple_class_writer.rs   (write_attribute_fix_length call sites and the writes that
                                                          follow them; if_helper / goto_helper call sites; the
-                                                         literals of the trampoline; the switch opcodes)
+                                                         literals of the trampoline; the switch opcodes; every use
+                                                         of an attribute name with its framing; the pool put each
+                                                         writer function calls, in source order)
         <vcheck.REPO>/duke/src/class_constants.rs        (opcode constants, attribute names)
 writes  <vcheck.COQ>/C02/Gen.v
 
@@ -112,6 +114,61 @@ def run():
     for need in ("GOTO_W", "TABLESWITCH", "LOOKUPSWITCH", "LDC", "LDC_W", "LDC2_W"):
         if need not in opc:
             errs.append("opcode::%s missing" % need)
+    # (d) pool tags and method-handle kinds (class_constants::pool)
+    m = re.search(r"pub\(crate\) mod pool \{(.*?)\n\}", consts, re.S)
+    if not m:
+        return ["class_constants.rs: mod pool not found"]
+    pool_tags = [(n, int(v, 0)) for n, v in re.findall(r"pub\(crate\) const (\w+): u8 = (0x[0-9a-fA-F]+|\d+);", m.group(1))]
+    tagd = dict(pool_tags)
+    need_tags = ["UTF8", "INTEGER", "FLOAT", "LONG", "DOUBLE", "CLASS", "STRING", "FIELD_REF", "METHOD_REF", "INTERFACE_METHOD_REF",
+                 "NAME_AND_TYPE", "METHOD_HANDLE", "METHOD_TYPE", "DYNAMIC", "INVOKE_DYNAMIC", "MODULE", "PACKAGE"]
+    for n in need_tags:
+        if n not in tagd:
+            errs.append("class_constants.rs: pool::%s missing" % n)
+    mm = re.search(r"MAGIC: u32 = (0x[0-9a-fA-F_]+);", consts)
+    if not mm:
+        errs.append("class_constants.rs: MAGIC not found")
+    # (e) every use of an attribute name in the writer: enclosing fn, name, how it is framed
+    #     0 = write_attribute_fix_length, 1 = write_attribute (buffered), 2 = name written by hand (put_utf8(attribute::X))
+    uses = []
+    cur_fn = None
+    fn_re = re.compile(r"^(?:pub\(crate\) )?fn (\w+)")
+    for i, l in enumerate(lines):
+        fm = fn_re.match(l)
+        if fm:
+            cur_fn = fm.group(1)
+        for am in re.finditer(r"attribute::(\w+)", l):
+            name = am.group(1)
+            if l.startswith("use "):
+                continue
+            if name not in attr:
+                errs.append("simple_class_writer.rs:%d: attribute::%s is not a constant of class_constants.rs" % (i + 1, name))
+                continue
+            if "write_attribute_fix_length(" in l:
+                kind = 0
+            elif "write_attribute(" in l:
+                kind = 1
+            elif "pool.put_utf8(attribute::" in l:
+                kind = 2
+            elif "with_context" in l or "anyhow!" in l:
+                continue  # error message only
+            else:
+                errs.append("simple_class_writer.rs:%d: unrecognised use of attribute::%s: %s" % (i + 1, name, l.strip()))
+                continue
+            uses.append((cur_fn, attr[name], kind, i + 1))
+    # (f) which pool put each writer function calls, in source order
+    puts = []
+    cur_fn = None
+    for i, l in enumerate(lines):
+        fm = fn_re.match(l)
+        if fm:
+            cur_fn = fm.group(1)
+        if l.strip().startswith("//"):
+            continue
+        for pm in re.finditer(r"(?:pool\.|PoolWrite::)(put_\w+)", l):
+            puts.append((cur_fn, pm.group(1), i + 1))
+    if not puts:
+        errs.append("no pool put call found")
     if errs:
         return errs
 
@@ -137,6 +194,21 @@ def run():
     out.append("Definition src_LDC_W : N := %d%%N." % opc["LDC_W"])
     out.append("Definition src_LDC2_W : N := %d%%N." % opc["LDC2_W"])
     out.append("Definition src_tramp_skip : Z := (1 + 2 + 1 + 4)%Z.")
+    out.append("")
+    out.append("(* class_constants::MAGIC and the constant-pool tags *)")
+    out.append("Definition src_MAGIC : Z := %d%%Z." % int(mm.group(1).replace("_", ""), 0))
+    out.append("Definition src_pool_tags : list N := [%s]%%N.  (* %s *)" % ("; ".join(str(tagd[n]) for n in need_tags), " ".join(need_tags)))
+    out.append("")
+    out.append("(* every use of an attribute name in simple_class_writer.rs: function, name, framing")
+    out.append("   (0 = write_attribute_fix_length, 1 = write_attribute, 2 = name put by hand) *)")
+    out.append("Definition attr_use_sites : list (list N * list N * N) := [")
+    out.append(";\n".join("  (%s, %s, %d%%N)  (* line %d: %s in %s *)" % (gstr(f), gstr(n), k, ln, n, f) for f, n, k, ln in uses))
+    out.append("].")
+    out.append("")
+    out.append("(* the pool puts of every function of simple_class_writer.rs, in source order: function, put *)")
+    out.append("Definition put_sites : list (list N * list N) := [")
+    out.append(";\n".join("  (%s, %s)  (* line %d: %s in %s *)" % (gstr(f), gstr(n), ln, n, f) for f, n, ln in puts))
+    out.append("].")
     text = "\n".join(out) + "\n"
     path = os.path.join(vcheck.COQ, "C02", "Gen.v")
     old = open(path).read() if os.path.exists(path) else None
